@@ -116,6 +116,7 @@ type enc struct {
 	projOrder      []*projInfo
 	elemAddr       map[string]bool
 	firstPass      bool
+	lockTouched    map[string]bool
 }
 
 type retRec struct {
@@ -159,6 +160,7 @@ func (p *Program) encodeFuncPass(fn *ssa.Function, pre map[string]*ghostCell, pr
 	e.out = &FuncVC{Func: e.qn, Notes: map[string]bool{}}
 	e.projs, e.elemAddr = map[string]*projInfo{}, map[string]bool{}
 	e.firstPass = pre == nil && preProjs == nil
+	e.lockTouched = map[string]bool{}
 	for _, pr := range preProjs {
 		e.projs[pr.fp.key()] = pr
 		e.projOrder = append(e.projOrder, pr)
